@@ -65,6 +65,11 @@ func OrderHistories(tier string) []OrderHistory {
 			fb(1, "bid1", "bcoin", "3"), many(2, "bid1", "2", "3"), blk(2), blk(3), blk(4)}},
 	)
 	hs = append(hs,
+		// creation messages that leave the start time out (valid: the auction opens at once)
+		OrderHistory{"creations-without-start-time", cfg, []Op{
+			{Kind: "create_fixed", Signer: "auc1", StartPrice: "1", Sell: "10acoin", PayDenom: "bcoin", ZeroStart: true, EndK: 2},
+			{Kind: "create_batch", Signer: "auc1", StartPrice: "1", MinPrice: "0.5", Sell: "10acoin", PayDenom: "bcoin", ZeroStart: true, EndK: 2, MaxExt: 0, Rate: "0.5"},
+			allow(0, "bid1", "10"), allow(1, "bid1", "10"), allow(1, "bid2", "10"), fb(0, "bid1", "bcoin", "3"), many(1, "bid1", "2", "3"), worth(1, "bid2", "2", "5"), blk(2)}},
 		// settlements with at most one matched bid but several refunds
 		OrderHistory{"batch-one-winner-two-losers", cfg, []Op{batch(0), allow(0, "bid1", "10"), allow(0, "bid2", "10"), allow(0, "bid3", "10"), many(0, "bid1", "4", "10"), worth(0, "bid2", "2", "7"), many(0, "bid3", "1", "3"), blk(2)}},
 		OrderHistory{"batch-nothing-matched-three-refunds", cfg, []Op{batch(0), allow(0, "bid1", "10"), allow(0, "bid2", "10"), allow(0, "bid3", "10"), many(0, "bid1", "4", "6"), many(0, "bid2", "4", "6"), worth(0, "bid3", "4", "30"), blk(2)}},
@@ -146,9 +151,27 @@ func RunOrder(p *Plan, o ExecOpts) (*ExecOut, error) {
 	if n < 2 {
 		n = 2
 	}
-	results := make([][]orderHistResult, n)
-	errs := make([]error, n)
+	results := make([][]orderHistResult, n+1)
+	errs := make([]error, n+1)
 	var wg sync.WaitGroup
+	// one more process runs only the canonical schedule of every history: its digests are compared with
+	// the shards' ("... or of the process that runs it")
+	wg.Add(1)
+	go func() {
+		defer wg.Done()
+		c := exec.Command(filepath.Join(binDir, "fmcorder"), "-tier", p.Tier, "-canon-only")
+		c.Env = goEnv()
+		c.Stderr = os.Stderr
+		out, err := c.Output()
+		if err != nil {
+			errs[n] = fmt.Errorf("canonical-only process: %v", err)
+			return
+		}
+		lines := strings.Split(strings.TrimSpace(string(out)), "\n")
+		if err := json.Unmarshal([]byte(lines[len(lines)-1]), &results[n]); err != nil {
+			errs[n] = fmt.Errorf("canonical-only process output: %v", err)
+		}
+	}()
 	for i := 0; i < n; i++ {
 		wg.Add(1)
 		go func(i int) {
@@ -179,8 +202,13 @@ func RunOrder(p *Plan, o ExecOpts) (*ExecOut, error) {
 	canon0 := map[string]int{}
 	siteHit := map[string]bool{}
 	var capped []string
+	canonByHist := map[string]map[string]bool{}
 	for _, rs := range results {
 		for _, r := range rs {
+			if canonByHist[r.Name] == nil {
+				canonByHist[r.Name] = map[string]bool{}
+			}
+			canonByHist[r.Name][r.Canonical] = true
 			if r.Name == OrderHistories(p.Tier)[0].Name {
 				canon0[r.Canonical]++
 			}
@@ -199,9 +227,14 @@ func RunOrder(p *Plan, o ExecOpts) (*ExecOut, error) {
 			capped = append(capped, r.CappedSites...)
 		}
 	}
-	if len(canon0) > 1 {
-		viol = append(viol, Violation{Prop: "C14", Sig: "differs-between-processes", Detail: fmt.Sprintf("the canonical schedule of history %q gives different digests in different worker processes: %v", OrderHistories(p.Tier)[0].Name, canon0)})
+	crossChecked := 0
+	for name, ds := range canonByHist {
+		if len(ds) > 1 {
+			viol = append(viol, Violation{Prop: "C14", Sig: "differs-between-processes", Detail: fmt.Sprintf("the same history %q executed with the same (canonical) iteration orders gives different events / state / balances in different processes", name)})
+		}
+		crossChecked++
 	}
+	ev.Coverage["histories_cross_checked_between_processes"] = crossChecked
 	var names []string
 	for k := range byName {
 		names = append(names, k)
@@ -233,7 +266,14 @@ func RunOrder(p *Plan, o ExecOpts) (*ExecOut, error) {
 	ev.Coverage["sites_with_no_choice_point_in_any_history"] = unreached
 	ev.Coverage["ranges_over_more_keys_than_permuted"] = capped
 	ev.Coverage["worker_processes"] = n
-	ev.Coverage["canonical_digest_agreement_across_processes"] = len(canon0) == 1
+	ev.Coverage["canonical_digest_agreement_across_processes"] = func() bool {
+		for _, ds := range canonByHist {
+			if len(ds) > 1 {
+				return false
+			}
+		}
+		return true
+	}()
 	ev.WallS = time.Since(start).Seconds()
 	return Adjudicate(p, o, viol, ev)
 }
